@@ -329,7 +329,21 @@ fn same_class(a: &Violation, b: &Violation) -> bool {
 /// ddmin over the operation list, then setup shrinking, then argument shrinking.
 /// returns (setup, ops, violation, failing op index, reproduced from the explicit trace?)
 pub fn minimise<S: Scenario>(s: &S, setup: &J, ops: &[Op], target: &Violation) -> (J, Vec<Op>, Violation, usize, bool) {
-    let mut budget = if s.judge_in_child() { 300usize } else { 3000usize };
+    // first in this process (fast); the result must also fail in a brand-new process - if it does not, the failure leaned
+    // on what earlier runs left behind in this worker (statics, caches), and the minimisation is repeated with every
+    // candidate judged in a child process; if not even the full trace fails alone, the replay is the batch prefix
+    let first = minimise_with(s, setup, ops, target, s.judge_in_child());
+    if s.judge_in_child() || !first.4 {
+        return first;
+    }
+    match run_trace_in_child(s, &first.0, &first.1) {
+        Some((v, _)) if same_class(&v, target) => first,
+        _ => minimise_with(s, setup, ops, target, true),
+    }
+}
+
+fn minimise_with<S: Scenario>(s: &S, setup: &J, ops: &[Op], target: &Violation, in_child: bool) -> (J, Vec<Op>, Violation, usize, bool) {
+    let mut budget = if in_child { 300usize } else { 3000usize };
     let mut scratch = Stats::default();
     let mut cur_setup = setup.clone();
     let mut cur: Vec<Op> = ops.to_vec();
@@ -340,7 +354,8 @@ pub fn minimise<S: Scenario>(s: &S, setup: &J, ops: &[Op], target: &Violation) -
             return None;
         }
         *budget -= 1;
-        match run_trace(s, setup, ops, &mut scratch) {
+        let r = if in_child { run_trace_in_child(s, setup, ops) } else { run_trace(s, setup, ops, &mut scratch) };
+        match r {
             Some((v, at)) if same_class(&v, target) => Some((v, at)),
             _ => None,
         }
